@@ -124,6 +124,15 @@ CHECKS['C13'] = dict(
     design='4 (C13)',
     technique='Coq proofs about resolve_args and a specification of Python argument binding + per-row lemmas on the function-node merge rule; vm_compute correspondence (merge, eval, binding acceptance); native-call and merge-table oracles for replays')
 
+CHECKS['C11'] = dict(
+    text='Machine-checked: C11_shape_plain (for EVERY plain well-formed tree building the config succeeds and the result has the same mappings - same keys, same order -, lists and exact '
+         'scalars as the tree, through placeholder check, deep copy and evaluation; proof by induction with a prefix-freshness invariant on the memo), C11_recorded_value_is_result. '
+         'In the model an evaluated config has a type without any node constructor, so "no node anywhere" is a typing fact whose content is the correspondence. Partial: the clauses '
+         '"evaluating does not modify the kept source" and "mutating the result never changes the source" are about Python aliasing, which a functional model satisfies by construction; '
+         'they are decided by the correspondence and by the fingerprint / re-evaluation / scribble / staged-build oracles.',
+    design='4 (C11)',
+    technique='Coq proof that evaluation of plain trees is the identity on content (memo freshness invariant) + typing of values; sampled vm_compute correspondence; source-fingerprint, re-evaluation, mutation-isolation and staged-build oracles for replays')
+
 NOT_APPLICABLE = {}
 
 
